@@ -76,6 +76,10 @@ def build_sky(kind, frame, meta, visual, ang):
     c = SkyCoord(201.25, -43.0625, unit='deg', frame='icrs').transform_to(frame)
     c = SkyCoord(c.spherical.lon.deg.round(6), c.spherical.lat.deg.round(6), unit='deg', frame=frame)
     a = u.arcsec
+    if kind == 'circle-tiny':
+        return R.CircleSkyRegion(c, 0.2 * a, meta=meta, visual=visual)           # below 1e-4 deg: written in exponent notation
+    if kind == 'ellipse-tiny':
+        return R.EllipseSkyRegion(c, 50 * u.mas, 0.3 * a, angle=2e-5 * u.deg, meta=meta, visual=visual)
     if kind == 'circle':
         return R.CircleSkyRegion(c, 3.5 * a, meta=meta, visual=visual)
     if kind in ('ellipse', 'rectangle'):
@@ -336,7 +340,7 @@ def harnesses(tier):
     for fr in ('icrs', 'fk5', 'fk4', 'galactic', 'barycentricmeanecliptic'):
         for kind in (PIX_SHAPES if not q else ['circle', 'ellipse', 'polygon', 'annulus-ellipse', 'line', 'text', 'rectangle']):
             hs.append((f'sky/{kind}/{fr}', P(h_roundtrip, [kind], ['tags' if kind != 'text' else 'plain'], [0 if kind == 'circle' else 'absent'], 6, 2, [fr])))
-    for kind in ('ellipse-angle', 'annulus-ellipse-angle', 'circle-angle'):
+    for kind in ('ellipse-angle', 'annulus-ellipse-angle', 'circle-angle', 'circle-tiny', 'ellipse-tiny'):
         hs.append((f'sky/{kind}/icrs', P(h_roundtrip, [kind], ['plain'], ['absent'], 6, 1, ['icrs'])))
     lists = [
         (['circle', 'ellipse'], ['visual', 'visual'], ['absent', 'absent'], ['image', 'image']),             # shared meta -> global line
@@ -350,6 +354,10 @@ def harnesses(tier):
         (['compound'], ['plain'], ['absent'], ['image']),
         (['circle', 'circle', 'ellipse'], ['plain', 'plain', 'plain'], ['absent', 0, False], ['fk5', 'galactic', 'image']),   # mixed frames + excluded members
         (['rectangle', 'circle'], ['plain', 'plain'], [0, 'absent'], ['icrs', 'image']),
+        # an inexpressible member in first / middle position, every member with DIFFERENT metadata and include sense
+        (['circle', 'circle', 'ellipse'], ['text', 'visual', 'tags'], [0, 'absent', 'absent'], ['supergalactic', 'image', 'image']),
+        (['circle', 'circle', 'rectangle'], ['tags', 'text', 'hexcolor'], ['absent', 0, False], ['image', 'supergalactic', 'image']),
+        (['circle', 'compound', 'rectangle'], ['tags', 'plain', 'hexcolor'], ['absent', 'absent', 0], ['image', 'image', 'image']),
     ]
     for i, (ks, ms, incs, frs) in enumerate(lists):
         hs.append((f'list{i}/{"+".join(ks)}/{"+".join(frs)}', P(h_roundtrip, ks, ms, incs, 5, i, frs)))
@@ -367,7 +375,7 @@ META = {
     'bounds': {'quick': {'pixel regions': 'all ten DS9 shapes + regular polygon; every coordinate and size symbolic (decimal tokens), precision in {1, 5}',
                          'sky regions': '7 shapes x 5 celestial frames, concrete coordinates / sizes, precision 6',
                          'angles': 'concrete: 0, 30, -45, 200 deg, 1 rad', 'include': ['absent', False, 0],
-                         'metadata vocabularies': list(METAS), 'lists': '11 lists of 1-3 regions (shared / distinct metadata, all excluded, mixed frames, mixed frames with excluded members, unsupported members at each position)', 'literal fixed points': '10 shapes x 2 property lists (fill, dash, flags, tags, fonts) x image / fk5, each included and excluded'},
+                         'metadata vocabularies': list(METAS), 'lists': '14 lists of 1-3 regions (shared / distinct metadata, all excluded, mixed frames, mixed frames with excluded members, unsupported members at each position)', 'literal fixed points': '10 shapes x 2 property lists (fill, dash, flags, tags, fonts) x image / fk5, each included and excluded'},
                'thorough': {'precision': [1, 3, 5, 8, 12], 'include': ['absent', True, False, 0, 1], 'sky shapes': 'all ten'}},
     'outside_claim': ['numeric round trip of sky coordinates / angular sizes goes through astropy (SkyCoord.to_string, Angle parsing) on the concrete values only',
                       'rotation angles are concrete (astropy Quantity.to_string needs floats)',
